@@ -1,0 +1,46 @@
+//go:build verif
+
+package auth
+
+// Machine-checked contracts for /verif (govc). Comment-only: compiled only with -tags verif, adds no code.
+
+//@ func matchesPermission
+//@   property C01, C02
+//@   modifies nothing
+//@   domain !hasPrefix(req.Path, "~")
+//@   loop 1 invariant 0 <= _i && _i <= len(perms) && forall(k, 0, _i, !grants(perms[k], req))
+//@   ensures result == grantsAny(perms, req)
+
+//@ func (m *Manager) authenticateWithUser
+//@   property C01
+//@   modifies nothing
+//@   requires req.Credentials != nil
+//@   domain !hasPrefix(req.Path, "~")
+//@   ensures result == admits(*u, req)
+
+//@ func (m *Manager) authenticateInternal
+//@   property C01
+//@   modifies nothing
+//@   requires req.Credentials != nil
+//@   domain !hasPrefix(req.Path, "~")
+//@   loop 1 invariant 0 <= _i && _i <= len(m.InternalUsers) && forall(k, 0, _i, !admits(old(m.InternalUsers)[k], req))
+//@   ensures [admitted-iff-some-user-admits] (result1 == nil) == exists(k, 0, len(old(m.InternalUsers)), admits(old(m.InternalUsers)[k], req))
+//@   ensures [user-name] result1 == nil ==> result0 == req.Credentials.User
+
+//@ func (m *Manager) Authenticate
+//@   property C01
+//@   requires req.Credentials != nil
+//@   domain !hasPrefix(req.Path, "~")
+//@   ensures [internal-decision] old(m.Method) == conf.AuthMethodInternal ==> (result1 == nil) == exists(k, 0, len(old(m.InternalUsers)), admits(old(m.InternalUsers)[k], req))
+//@   ensures [internal-user] old(m.Method) == conf.AuthMethodInternal && result1 == nil ==> result0 == old(req.Credentials.User)
+//@   ensures [ask-credentials] old(m.Method) == conf.AuthMethodInternal && result1 != nil ==> result1.AskCredentials == (old(req.EnableAskCredentials) && old(req.Credentials.User) == "" && old(req.Credentials.Pass) == "")
+
+//@ func getToken
+//@   property C02
+//@   requires req.Credentials != nil
+//@   modifies nothing
+//@   def queryAllowed() bool = req.Protocol == ProtocolRTSP || req.Protocol == ProtocolRTMP || (tokenInHTTPQuery && isHTTPReq(req))
+//@   ensures [token-first] req.Credentials.Token != "" ==> result == req.Credentials.Token
+//@   ensures [then-password] req.Credentials.Token == "" && req.Credentials.Pass != "" ==> result == req.Credentials.Pass
+//@   ensures [then-query] req.Credentials.Token == "" && req.Credentials.Pass == "" && queryAllowed() ==> result == queryToken(req.Query)
+//@   ensures [else-none] req.Credentials.Token == "" && req.Credentials.Pass == "" && !queryAllowed() ==> result == ""
